@@ -89,6 +89,14 @@ def space(tier):
                 units.append(({"program": p, "cfg": {"env_kinds": [], "grace": 1.0, "api_latency": lat, "timer_choices": False,
                                                      "stall": [0.25], "stall_ops": ["signal"] if quick else ["signal", "wait"]}},
                               {"stall": 2, "total": 2}, cap))
+    # "no single invocation runs forever" also when a checkpoint call fails: records waiting behind the batch size limit
+    # (overflow queue) and records queued behind the failing call
+    for nm, seq in (("S[800KB]+S", [{"k": "step", "fn": {"bytes": 800_000}}, {"k": "step", "fn": {"ret": 2}}]),
+                    ("par[S[400KB]|S[400KB]|W]", [{"k": "par", "cfg": {"cc": "all_completed"}, "branches": [
+                        [{"k": "step", "fn": {"bytes": 400_000}}], [{"k": "step", "fn": {"bytes": 400_000}}], [{"k": "wait", "s": 1}]]}]),
+                    ("W+S", [{"k": "wait", "s": 1}, {"k": "step", "fn": {"ret": 1}}])):
+        units.append(({"program": {"name": nm, "seq": seq}, "cfg": {"env_kinds": ["fault"], "faults": ["5xx", "4xx"]}},
+                      {"fault": 1, "total": 1}, cap))
     for kind, p in programs(tier):
         base = {"env_kinds": ["deliver"], "spurious": True}
         if kind == "grid":
@@ -119,4 +127,4 @@ simcheck.install(globals(), "C07", [monitors.judge_c07], space,
                  "max_concurrency; zero branches/items; one preemption at any line of concurrency/executor.py on 7 shapes; a 14-program grid in which a sibling parks 0.8..1.4 s after start while a 1 s "
                  "timed-suspended branch becomes due (with 0 and 300 ms API latency, one preemption; and with <=2 stalls of 250 ms at signalling operations); threads keep running for "
                  "1 virtual second after the wrapper returned so that work started after PENDING is seen; all delivery orders of timers/callbacks/invokes incl. one "
-                 "spurious re-invocation; every single crash point; policies rtb/low/high; +1 scheduling/timer deviation")
+                 "spurious re-invocation; three programs (incl. records above the batch size limit) with every checkpoint call failing; every single crash point; policies rtb/low/high; +1 scheduling/timer deviation")
